@@ -15,6 +15,16 @@ vec_cov_range vec_new(void)
   return v;
 }
 
+vec_cov_range vec_copy(const vec_cov_range *src)
+{
+  vec_cov_range v = vec_new();
+  VEC_ASSERT(src->len <= v.cap, "copy within modelled capacity");
+  for (size_t i = 0; i < src->len; ++i)
+    v.data[i] = src->data[i];
+  v.len = src->len;
+  return v;
+}
+
 void vec_push_back(vec_cov_range *v, const cov_range *x)
 {
   VEC_ASSERT(v->len < v->cap, "push_back within modelled capacity");
